@@ -428,7 +428,17 @@ func call(q Req, in *Inst) (dig string, errs string) {
 		bmr := isobmff.NewReader(onlyReader{in})
 		defer bmr.Close()
 		bmr.ExifReader = ir.DecodeIfd
+		var drain [512]byte
 		bmr.XMPReader = func(r io.Reader) error {
+			if q.Alloc {
+				// allocation runs: the callback is the harness's, not the library's; ParseXmp has its
+				// own entry point, and digesting here would be charged to the decode. Only consume the box.
+				for {
+					if n, e := r.Read(drain[:]); e != nil || n == 0 {
+						return nil
+					}
+				}
+			}
 			x, e := xmp.ParseXmp(r)
 			fmt.Fprintf(&sb, "xmp-callback err=%s\n%s", digest.Err(e), digest.Of(x))
 			return e
